@@ -37,7 +37,9 @@ TRACE_PLANS = {
             # inputs harvested for a rare premise: a learnt clause that is the reason of an
             # assignment on the final trail AND an ancestor of another such reason (the
             # unsolvable-analysis meets it twice): 1 - 3 % of conflict-rich random problems
-            ("corpus:c03_shared", 400, 400, "", True)],
+            ("corpus:c03_shared", 400, 400, "", True),
+            # the report is built while the provider (only now) asks to cancel
+            ("cancelrender:unionoverlap,unionempty,midconflict", 40, 800, "", False)],
     "C04": [("solve:hintexcl,selfcons,softlone", 250, 6000, "", False),
             ("solve:cyclic,excl,locks,unknown,soft,softhints", 120, 4000, "hints", False),
             ("solve:midconflict,base", 120, 4000, "asynchints", False),
